@@ -504,8 +504,33 @@ def main() -> int:
                              "bv_widths": bvw.get((a, b), []) if v == versions[-1] else [], "bv_timeout_ms": 30000 if t == "quick" else 300000,
                              "want_sample": (a, b) == (3, 2)})
     results = run_jobs("verif.checks.c16:job", jobs)
+    # (c) factors that have their own code (several blocks, side effects, symbolic conditions) at every list position:
+    # translation validation of whole programs against the recipe semantics of WideRatio (verif/recipe/ref.py ev_WideRatio)
+    from ..recipe import gen as rgen
+    from ..common import to_json
+    cjobs = []
+    for v in (versions if t != "quick" else [5, 8]):
+        for (name, rec, opts) in rgen.wideratio_compound("A", v, t != "quick"):
+            cj = {"id": "%s@v%d" % (name, v), "family": "compound", "rec": to_json(rec), "version": v, "mode": "A", "loop_k": 2, "call_depth": 2, "lens": (0, 1)}
+            cj.update(opts)
+            cjobs.append(cj)
+    cres = run_jobs("verif.tvjob:tv_recipe_job", cjobs)
+    compound_programs = 0
+    for r in cres:
+        if "harness_error" in r:
+            rep.harness_error("%s: %s" % (r.get("_job"), r["harness_error"]))
+            continue
+        if r.get("status") != "ok":
+            continue
+        compound_programs += 1
+        for v in r.get("violations", []):
+            rep.violation(v, ["wideratio:compound-factor"])
     ob = dis = inc = conc = 0
     st = 0.0
+    for r in cres:
+        if r.get("status") == "ok":
+            ob += r.get("obligations", 0); dis += r.get("discharged", 0); inc += r.get("inconclusive", 0) + r.get("unconfirmed", 0); conc += r.get("replayed", 0)
+            st += (r.get("stats") or {}).get("solver_time", 0)
     samples = []
     bvres = []
     programs = 0
@@ -547,7 +572,7 @@ def main() -> int:
                        "differential of the whole program against Python integers as witness",
         "evaluations": len(jobs), "distinct_nontrivial": programs,
         "rule": "one program per (|N|,|D|,version,context); all are non-trivial (>= 2 factors)",
-        "programs": programs, "disagreements_checked": conc, "samples": samples,
+        "programs": programs + compound_programs, "compound_factor_programs": compound_programs, "disagreements_checked": conc, "samples": samples,
         "states": ob, "transitions": ob, "traces_validated_against_impl": conc,
         "solver_time_s": round(st, 2), "narrow_width_results": bvres[:60],
         "bounds": {"factor_counts": "1..6 x 1..6", "word_width_contracts": 64, "narrow_widths": sorted({b["W"] for b in bvres})},
